@@ -26,7 +26,8 @@ type Gated struct {
 	everIn     map[imap.MailboxID]map[imap.MessageID]bool // message was in the mailbox at some time
 	nowIn      map[imap.MailboxID]map[imap.MessageID]bool
 	// OnCmd is called after every client command with the mirror as it stood before.
-	OnCmd func(si int, kind string, before []wire.Entry, r *wire.Result)
+	OnCmd    func(si int, kind string, before []wire.Entry, r *wire.Result)
+	batchOut map[string]bool // removed from a mailbox by the calls of the command being folded in
 }
 
 func NewGated(e *Env, nsess, nbox int) *Gated {
@@ -38,6 +39,10 @@ func NewGated(e *Env, nsess, nbox int) *Gated {
 // refreshRemote folds the connector's call log into the registries.
 func (g *Gated) refreshRemote() {
 	c := g.E.W.Users[0].Conn
+	// one command's calls: the server re-adds a message to a mailbox holding it by removing
+	// and adding it in one go
+	g.batchOut = map[string]bool{}
+	defer func() { g.batchOut = nil }()
 	for _, call := range c.TakeCalls() {
 		if call.Err != nil {
 			continue
@@ -88,7 +93,12 @@ func (g *Gated) noteIn(box imap.MailboxID, id imap.MessageID) {
 	if g.everIn[box] == nil {
 		g.everIn[box], g.nowIn[box] = map[imap.MessageID]bool{}, map[imap.MessageID]bool{}
 	}
-	if g.everIn[box][id] {
+	if g.nowIn[box][id] || g.batchOut[string(box)+"|"+string(id)] {
+		// added to a mailbox that holds it already (COPY/MOVE onto a mailbox with a copy,
+		// same-mailbox COPY): the history behind finding F08
+		g.E.Attr("message_added_to_mailbox_holding_it")
+		g.E.St.Probes["message_added_to_mailbox_holding_it"]++
+	} else if g.everIn[box][id] {
 		g.E.Attr("message_put_back")
 		g.E.St.Probes["message_put_back"]++
 	}
@@ -97,6 +107,9 @@ func (g *Gated) noteIn(box imap.MailboxID, id imap.MessageID) {
 }
 
 func (g *Gated) noteOut(box imap.MailboxID, id imap.MessageID) {
+	if g.batchOut != nil {
+		g.batchOut[string(box)+"|"+string(id)] = true
+	}
 	if g.nowIn != nil && g.nowIn[box] != nil {
 		delete(g.nowIn[box], id)
 	}
@@ -235,7 +248,7 @@ func (g *Gated) ExecG(a core.Action) bool {
 				}
 			}
 		}
-		if e.Sc.C("readd") == 0 && len(boxes) > 1 {
+		if e.Sc.C("readd") == 0 && e.Sc.C("multibox") == 0 && len(boxes) > 1 {
 			boxes = boxes[:1]
 		}
 		flags := imap.NewFlagSet(FlagsFromMask(a.Arg(2)&0x6f, 0)...)
@@ -371,7 +384,7 @@ func (g *Gated) tameGated(si int, a core.Action) core.Action {
 	for len(b.A) < 8 {
 		b.A = append(b.A, 0)
 	}
-	if sc.C("readd") == 0 && a.K == "copy" {
+	if sc.C("readd") == 0 && sc.C("multibox") == 0 && a.K == "copy" {
 		// keep every message in at most one mailbox (see DESIGN: finding F08)
 		b.K = "move"
 	}
